@@ -55,9 +55,15 @@ Definition is_recent (p : params) (now : Z) (h : hdr) : bool :=
     pending ranges, the clock *)
 Record sstate := SState { s_store : option hdr; s_pend : option hdr; s_now : Z }.
 
-(** localHead: pending head if any, else the store head (None = ErrEmptyStore) *)
+(** localHead (since /repo dd38a4c): the pending head only while it is above the
+    store head (or the store is empty), otherwise the store head; None = ErrEmptyStore.
+    The highest known head, whatever is stale in pending. *)
 Definition local_head (s : sstate) : option hdr :=
-  match s_pend s with Some p => Some p | None => s_store s end.
+  match s_pend s, s_store s with
+  | Some p, None => Some p
+  | Some p, Some sh => if h_height sh <? h_height p then Some p else Some sh
+  | None, st => st
+  end.
 
 Definition hgt (o : option hdr) : N := match o with Some h => h_height h | None => 0 end.
 
